@@ -311,6 +311,14 @@ pub trait Property: Sync {
     fn fuzzable(&self) -> bool {
         false
     }
+    /// which fuzz target (binary of /verif/fuzz) serves this property
+    fn fuzz_target(&self) -> &'static str {
+        "tape"
+    }
+    /// the replay case for a libFuzzer artifact of that target
+    fn fuzz_artifact_case(&self, bytes: &[u8]) -> Value {
+        json!({"tape": hex(bytes)})
+    }
     /// proptest shrink budget (0 for campaigns whose single case is already expensive
     /// and whose violations carry their own small reproduction)
     fn max_shrink_iters(&self) -> u32 {
@@ -835,7 +843,13 @@ pub fn run_supervisor(p: &dyn Property, a: &RunArgs) -> i32 {
 /// libFuzzer campaign: N processes on a shared corpus seeded with random tapes; every
 /// artifact is re-judged through the normal replay path (in a child process).
 fn run_fuzz(p: &dyn Property, seed: u64, dir: &Path, engine: &str) -> (Value, Vec<Violation>) {
+    // FMLV_FUZZ_BIN names the `tape` target; sibling targets live next to it
     let bin = std::env::var("FMLV_FUZZ_BIN").unwrap_or_default();
+    let bin = if p.fuzz_target() == "tape" || bin.is_empty() {
+        bin
+    } else {
+        Path::new(&bin).with_file_name(p.fuzz_target()).to_string_lossy().to_string()
+    };
     if bin.is_empty() || !Path::new(&bin).exists() {
         return (json!({"skipped": "fuzz target not built (nightly toolchain / cargo-fuzz build failed or FMLV_FUZZ_BIN unset)"}), vec![]);
     }
@@ -848,7 +862,14 @@ fn run_fuzz(p: &dyn Property, seed: u64, dir: &Path, engine: &str) -> (Value, Ve
     for k in 0..64u64 {
         let len = 40 + (mix(seed ^ k) % (p.max_tape() as u64 - 40).max(1)) as usize;
         let tape = crate::tools::random_tape(mix(seed.wrapping_mul(31) ^ (k << 8)), len);
-        let _ = std::fs::write(corpus.join(format!("seed-{}", k)), tape);
+        if p.fuzz_target() == "source" {
+            // seed the source-text target with rendered generated programs
+            let mut t = crate::tape::Tape::new(&tape);
+            let g = crate::gen::prog::generate(&mut t, &crate::gen::prog::Profile::full());
+            let _ = std::fs::write(corpus.join(format!("seed-{}", k)), crate::render::text(&g.prog, crate::render::Style::Minimal));
+        } else {
+            let _ = std::fs::write(corpus.join(format!("seed-{}", k)), tape);
+        }
     }
     let mut kids = vec![];
     for i in 0..procs {
@@ -859,6 +880,8 @@ fn run_fuzz(p: &dyn Property, seed: u64, dir: &Path, engine: &str) -> (Value, Ve
             .arg("-len_control=0")
             .arg(format!("-max_len={}", p.max_tape()))
             .arg("-print_final_stats=1")
+            .arg("-malloc_limit_mb=1024")
+            .arg("-timeout=60")
             .arg(format!("-seed={}", (mix(seed ^ (i as u64 + 1)) % 0x7fff_fffe) + 1))
             .arg(format!("-artifact_prefix={}/w{}-", arts.display(), i))
             .env("FMLV_PROP", p.id())
@@ -894,18 +917,26 @@ fn run_fuzz(p: &dyn Property, seed: u64, dir: &Path, engine: &str) -> (Value, Ve
     let corpus_size = std::fs::read_dir(&corpus).map(|r| r.count()).unwrap_or(0);
     let mut found = vec![];
     let mut artifacts = 0;
+    let mut resource_artifacts = 0;
     if let Ok(rd) = std::fs::read_dir(&arts) {
         for e in rd.flatten() {
+            let name = e.file_name().to_string_lossy().to_string();
+            if p.fuzz_target() == "source" && (name.contains("-oom-") || name.contains("-timeout-")) {
+                // memory / time exhaustion inside the instrumented process: not a crash of the
+                // toolchain and not something the real binary should be made to repeat
+                resource_artifacts += 1;
+                continue;
+            }
             artifacts += 1;
             let bytes = std::fs::read(e.path()).unwrap_or_default();
             let f = dir.join(format!("artifact-{}.json", artifacts));
-            let body = json!({"property": p.id(), "case": {"tape": hex(&bytes)}, "note": "libFuzzer artifact"});
+            let body = json!({"property": p.id(), "case": p.fuzz_artifact_case(&bytes), "note": "libFuzzer artifact"});
             let _ = std::fs::write(&f, serde_json::to_string(&body).unwrap());
             match replay_in_child(engine, p.id(), &f) {
                 ChildVerdict::Ok => {}
                 ChildVerdict::Violation(vs) => found.extend(vs),
                 ChildVerdict::Crash(sig) => found.push(
-                    Violation::new("native-crash", format!("fuzz artifact kills the checker process (signal {})", sig), json!({"tape": hex(&bytes)})).with("signal", sig.to_string()),
+                    Violation::new("native-crash", format!("fuzz artifact kills the checker process (signal {})", sig), p.fuzz_artifact_case(&bytes)).with("signal", sig.to_string()),
                 ),
                 ChildVerdict::Error(_) => {}
             }
@@ -913,7 +944,7 @@ fn run_fuzz(p: &dyn Property, seed: u64, dir: &Path, engine: &str) -> (Value, Ve
     }
     (
         json!({
-            "engine": "libFuzzer (cargo-fuzz, nightly, ASan) on the same tape decoder and in-target oracle",
+            "engine": if p.fuzz_target() == "source" { "libFuzzer (cargo-fuzz, nightly, ASan) on source text: parse, compile, serialize, load, fuel-bounded run and disassembly in-process; an input that kills the process is re-judged on the real binary" } else { "libFuzzer (cargo-fuzz, nightly, ASan) on the same tape decoder and in-target oracle" },
             "processes": started,
             "seconds_each": secs,
             "executions": execs,
@@ -921,6 +952,8 @@ fn run_fuzz(p: &dyn Property, seed: u64, dir: &Path, engine: &str) -> (Value, Ve
             "corpus_size": corpus_size,
             "max_cov_counters": cov,
             "artifacts": artifacts,
+            "resource_artifacts_not_judged": resource_artifacts,
+            "target": p.fuzz_target(),
             "artifacts_confirmed_as_violations": found.len(),
             "note": "campaigns are only approximately reproducible (-seed); the saved artifact re-judged by --replay is the reproducible unit"
         }),
